@@ -121,19 +121,20 @@ template <typename T> static void real_run(int family, long long N, unsigned lon
         T v = std::ldexp((T) vals[(std::size_t) i], -e);
         if (i % 2 == 0) { long long b = (i / 2) % 4; pr.add(0, T(0.25) + T(0.5) * T(b % 2), T(0.25) + T(0.5) * T(b / 2), v); }
         else pr.add(1, T(0.25) + T(0.5) * T((i / 2) % 2), v);
-        pr.add(2, T(0.25) + T(0.5) * T(i % 2), v);
-        pr.add(2, T(0.25) + T(0.5) * T(i % 2), v);
+        // (distribution 2 has wide bins: [0, 2048) in two bins of size 1024)
+        pr.add(2, T(256) + T(1024) * T(i % 2), v);
+        pr.add(2, T(256) + T(1024) * T(i % 2), v);
         return v;
     };
-    auto r = hep::plain(hep::make_integrand<T>(f, 1, hep::distribution_parameters<T>(2, 2, T(), T(1), T(), T(1), "a"), hep::make_dist_params<T>(2, T(), T(1), "b"), hep::make_dist_params<T>(2, T(), T(1), "c")),
+    auto r = hep::plain(hep::make_integrand<T>(f, 1, hep::distribution_parameters<T>(2, 2, T(), T(1), T(), T(1), "a"), hep::make_dist_params<T>(2, T(), T(1), "b"), hep::make_dist_params<T>(2, T(), T(2048), "c")),
         std::vector<std::size_t>{(std::size_t) N}, hep::make_plain_chkpt<T>(), hep::callback<hep::default_plain_chkpt<T>>(hep::callback_mode::silent));
     auto const& res = r.results()[0];
     std::vector<long long> bins;
     for (int d = 0; d != 3; ++d)
         for (int b = 0; b != (d == 0 ? 4 : 2); ++b)
         {
-            // the bin stores sum / bin size (0.25 resp. 0.5): multiply back (exact)
-            T s = res.distributions()[(std::size_t) d].results()[(std::size_t) b].sum() * (d == 0 ? T(0.25) : T(0.5));
+            // the bin stores sum / bin size (0.25, 0.5 resp. 1024): multiply back (exact)
+            T s = res.distributions()[(std::size_t) d].results()[(std::size_t) b].sum() * (d == 0 ? T(0.25) : (d == 1 ? T(0.5) : T(1024)));
             bins.push_back(err_ulps<T>(s, bexact[d][b], babs[d][b] ? babs[d][b] : 1, e));
         }
     ev("SumCheck").s("T", type_name<T>::get()).s("family", famname(family)).i("N", N).i("errUlps", err_ulps<T>(res.sum(), exact, abssum ? abssum : 1, e))
